@@ -46,6 +46,7 @@ func (c12) Plan(tier string, seed int64) []mon.Workload {
 		{Name: "shadowing", N: int64(len(c12ShadowBlocks) * len(c12ShadowPairs) * 3), Exhaustive: true},
 		{Name: "redeclare", N: int64(len(c12RedeclForms) * len(c12ShadowPairs) * 2), Exhaustive: true},
 		{Name: "after-guard", N: int64(len(c12GuardForms) * len(c12ShadowPairs)), Exhaustive: true},
+		{Name: "subjects", N: int64(len(c12SubjOps) * len(c12SubjSetups) * len(c12SubjSpell)), Exhaustive: true},
 	}
 }
 
@@ -186,7 +187,74 @@ func c12Shadowing(i int64) ([]*gt.T, *ref.Point) {
 	return gt.CloneStmts(l), pt
 }
 
+// subjects (exhaustive): every extraction builtin x where its subject lives
+// (a field, a tag, a variable that shadows a field holding something else, a
+// variable alone, nowhere) x how the subject is spelled (`message`, its alias
+// `_`, another key): the engine is applied to the variable if one exists,
+// otherwise to the point's value - under either spelling.
+var c12SubjOps = [][3]string{
+	// {operation on subject S, value A, value B}: A and B are both extractable and give different results
+	{"ok = grok(S, \"%{WORD:w} %{INT:n:int}\")\np(ok, get_key(w), get_key(n))\n", "alpha 12", "beta 77"},
+	{"xml(S, \"/a/b/text()\", xv)\np(get_key(xv))\n", "<a><b>first</b></a>", "<a><b>second</b></a>"},
+	{"sql_cover(S)\np(get_key(S))\n", "select * from t where id = 5 and n = 'x'", "update u set a = 1"},
+	{"default_time(S)\np(get_key(S))\n", "2021-03-04 05:06:07", "2019-12-31T23:59:58Z"},
+	{"default_time(S, \"+8\")\np(get_key(S))\n", "2021-03-04 05:06:07", "2020-02-29 12:00:00"},
+	{"ok = grok(S, \"%{NUMBER:f:float}\", true)\np(ok, get_key(f))\n", " 2.5 ", "99"},
+}
+var c12SubjSetups = []string{"field", "tag", "var-over-field", "var-over-tag", "var-alone", "absent", "nonstring-var-over-field", "var-in-block"}
+var c12SubjSpell = [][2]string{{"message", "message"}, {"_", "message"}, {"message", "_"}, {"_", "_"}, {"k", "k"}}
+
+func c12Subjects(i int64) ([]*gt.T, *ref.Point) {
+	sp := c12SubjSpell[int(i)%len(c12SubjSpell)]
+	i /= int64(len(c12SubjSpell))
+	setup := c12SubjSetups[int(i)%len(c12SubjSetups)]
+	op := c12SubjOps[int(i)/len(c12SubjSetups)]
+	// sp[0] spells the subject in the call, sp[1] names the variable in the setup
+	key := "message"
+	if sp[0] == "k" {
+		key = "k"
+	}
+	pt := ref.NewPoint("m", map[string]string{"bt": "by"}, map[string]any{"b1": int64(4)}, time.Unix(1600000000, 0))
+	text := ""
+	q := func(v string) string { return "\"" + strings.ReplaceAll(v, "\"", "\\\"") + "\"" }
+	switch setup {
+	case "field":
+		pt.Fields[key] = op[1]
+	case "tag":
+		pt.Tags[key] = op[1]
+	case "var-over-field":
+		pt.Fields[key] = op[1]
+		text = sp[1] + " = " + q(op[2]) + "\n"
+	case "var-over-tag":
+		pt.Tags[key] = op[1]
+		text = sp[1] + " = " + q(op[2]) + "\n"
+	case "var-alone":
+		text = sp[1] + " = " + q(op[2]) + "\n"
+	case "absent":
+	case "nonstring-var-over-field":
+		pt.Fields[key] = op[1]
+		text = sp[1] + " = 12\n"
+	case "var-in-block":
+		pt.Fields[key] = op[1]
+		text = "if true {\n  " + sp[1] + " = " + q(op[2]) + "\n}\n"
+	}
+	text += strings.ReplaceAll(op[0], "S", sp[0])
+	text += "p(get_key(message), get_key(k))\n"
+	o := drive.Parse("subjects", text)
+	if o.Err != nil {
+		panic("c12: subjects program does not parse: " + text + ": " + o.Err.Error())
+	}
+	l, err := gt.FromStmts(o.Stmts)
+	if err != nil {
+		panic(err)
+	}
+	return gt.CloneStmts(l), pt
+}
+
 func (c12) build(c *mon.Ctx, workload string, i int64) ([]*gt.T, *ref.Point) {
+	if workload == "subjects" {
+		return c12Subjects(i)
+	}
 	if workload == "shadowing" {
 		return c12Shadowing(i)
 	}
